@@ -65,7 +65,12 @@ def gen_scenario(rng, big=False):
     nreads = -(-s.size // s.chunk)
     s.faults = []
     for _ in range(rng.choice([0, 1, 1, 2, 2, 3])):
-        kind = rng.choice(["r", "r", "r", "e", "d"])
+        kind = rng.choice(["r", "r", "r", "e", "d", "c"])
+        if kind == "c":
+            # helper process dies at that read; only the first `keep` bytes of the partial file survive
+            i = rng.randrange(0, nreads + 1)
+            s.faults.append(["c", i, "restart", rng.randrange(0, min(s.size, (i + 1) * s.chunk) + 1)])
+            continue
         if kind == "e":
             s.faults.append(["e", 0, rng.choice(["keep", "restart"])])
         else:
@@ -105,7 +110,7 @@ def corpus():
         s = Scenario()
         s.k, s.n, s.num_servers, s.maxseg = 3, 4, 4, 1024
         s.size, s.chunk, s.enc_chunk = 6500, 1000, 1000
-        s.faults = [["r", i, "keep"]]
+        s.faults = [["r", i, "keep"]] if i % 3 else [["c", i, "restart", max(0, i * 1000 - 700)]]
         s.delete, s.policy, s.seed, s.corpus = "some", "random", 4500 + i, True
         res.append(s)
     return res
@@ -228,7 +233,9 @@ def run_scenario(ctx, s):
             attach(True)
             trace, model_faults, fired_any = [], [], False
             result = None
-            for (kind, idx, after) in [tuple(f) for f in s.faults] + [("n", 0, "keep")]:
+            for flt in [tuple(f) for f in s.faults] + [("n", 0, "keep")]:
+                kind, idx, after = flt[0], flt[1], flt[2]
+                keep_bytes = flt[3] if len(flt) > 3 else None
                 w = state["w"] if up._helper is not None else attach(False)
                 reads = [0]
                 fired = [False]
@@ -237,7 +244,7 @@ def run_scenario(ctx, s):
                     if methname == "read_encrypted":
                         i = reads[0]
                         reads[0] += 1
-                        if kind in ("r", "d") and i == idx:
+                        if kind in ("r", "d", "c") and i == idx:
                             fired[0] = True
                             if kind == "d":
                                 w.disconnect()
@@ -257,10 +264,12 @@ def run_scenario(ctx, s):
                     ok = False
                 rt.settle()
                 w.fault = None
+                if kind == "c" and not ok and os.path.exists(inc_path) and os.path.getsize(inc_path) > keep_bytes:
+                    os.truncate(inc_path, keep_bytes)      # the tail that had not reached the disk is gone
                 fired_any = fired_any or fired[0]
                 trace.append("%s/%s/%d" % tuple(("x" if v is None else v) if not isinstance(v, bool) else int(v)
                                                 for v in (file_len(inc_path), file_len(enc_path), ok)))
-                model_faults.append({"r": "r%d" % idx, "d": "r%d" % idx, "e": "e", "n": "n"}[kind])
+                model_faults.append({"r": "r%d" % idx, "d": "r%d" % idx, "e": "e", "n": "n", "c": "x%d.%s" % (idx, keep_bytes)}[kind])
                 ctx.count("attempt:%s:%s:%s" % (kind, "fired" if fired[0] else "not-fired", "ok" if ok else "failed"))
                 if ok:
                     break
